@@ -197,15 +197,18 @@ def gen_dro_sep(rng, cfg):
     families, probability sets with a direct reference LP, constraints with and without E, attached to one of up
     to two ambiguity sets or to the objective's default."""
     cone = rng.choice(['lp', 'lp', 'soc', 'soc', 'exp'])
+    moment_mode = rng.random() < cfg.get('p_moments', 0.35)      # expectation sets: box supports + reference LP
+    if moment_mode:
+        cone = 'lp'
     S = rng.randint(1, 4)
     labk = rng.randrange(3)
     labels = list(range(S)) if labk == 0 else (['s%d' % i for i in range(S)] if labk == 1 else rng.sample(range(10, 99), S))
     intlab = labk == 0
     zs = {'z': rng.randint(1, 3)}
-    if rng.random() < 0.3:
+    if rng.random() < 0.3 and not moment_mode:
         zs['w'] = rng.randint(1, 2)
     K = rng.randint(2, 4)
-    fams = gen.fams_for(cone)
+    fams = ['box', 'absbox'] if moment_mode else gen.fams_for(cone)
     steps = []
 
     def add(op, deps, **kw):
@@ -270,9 +273,53 @@ def gen_dro_sep(rng, cfg):
                 [sa] + list(s_z.values()), role='supp', anchor=sa)
         P = gen_probset(rng, S)
         add({'op': 'prob', 'amb': an, 'set': ref.prob_constraints('m.p', P)}, [sa], role='prob', anchor=sa)
-        ambs[an] = {'supports': supports, 'P': P}
+        ambs[an] = {'supports': supports, 'P': P, 'moments': []}
+        if moment_mode:
+            nz_ = zs['z']
+            boxes = [ref.box_of(supports[s_], nz_) for s_ in range(S)]
+            phat = P['phat']
+            for _ in range(rng.randint(1, 2)):
+                ev = sorted(rng.sample(range(S), rng.randint(1, S))) if rng.random() < 0.6 else list(range(S))
+                tot = sum(phat[s_] for s_ in ev)
+                ctr = [sum(phat[s_] * (boxes[s_][0][i] + boxes[s_][1][i]) / 2.0 for s_ in ev) / tot for i in range(nz_)]
+                mlo, mhi, cs = [], [], []
+                ez = ['E', ['v', 'z']]
+                how = rng.randrange(3)
+                h = [gen.r2(rng, 0.05, 0.6) for _ in range(nz_)]
+                if how == 0:
+                    mlo = [round(ctr[i] - h[i], 4) for i in range(nz_)]
+                    mhi = [round(ctr[i] + h[i], 4) for i in range(nz_)]
+                    cs = [['>=', ez, ['c', mlo]], ['<=', ez, ['c', mhi]]]
+                elif how == 1:
+                    mlo = [None] * nz_
+                    mhi = [round(ctr[i] + h[i] - 0.3, 4) for i in range(nz_)]
+                    mhi = [max(mhi[i], round(ctr[i] - 0.2, 4)) for i in range(nz_)]
+                    cs = [['<=', ez, ['c', mhi]]]
+                else:
+                    mu = [round(ctr[i] + (h[i] - 0.3) * 0.5, 4) for i in range(nz_)]
+                    mlo, mhi = list(mu), list(mu)
+                    cs = [['==', ez, ['c', mu]]]
+                if len(ev) == S and rng.random() < 0.5:
+                    sc = None
+                else:
+                    labs = [labels[q] for q in ev]
+                    sc = labs if intlab else {'loc': labs}
+                try:        # keep only moment sets that leave the ambiguity set non-empty (with margin)
+                    trial = ambs[an]['moments'] + [(ev, [None if v is None else v + 1e-3 for v in mlo],
+                                                    [None if v is None else v - 1e-3 for v in mhi])]
+                    if how != 2:
+                        ref.worst_case_expectation_moments(P, boxes, [0.0] * nz_, trial)
+                    else:
+                        ref.worst_case_expectation_moments(P, boxes, [0.0] * nz_, ambs[an]['moments'] + [(ev, mlo, mhi)])
+                except RuntimeError:
+                    continue
+                add({'op': 'expt', 'amb': an, 'scen': sc, 'set': cs}, [sa] + list(s_z.values()), role='expt', anchor=sa)
+                ambs[an]['moments'].append((ev, mlo, mhi))
+            ambs[an]['boxes'] = boxes
 
     def wce(an, a):
+        if ambs[an]['moments']:
+            return ref.worst_case_expectation_moments(ambs[an]['P'], ambs[an]['boxes'], a['z'], ambs[an]['moments'])
         deltas = [ref.support(ambs[an]['supports'][s_], a) for s_ in range(S)]
         return ref.worst_case_expectation(ambs[an]['P'], deltas)
 
